@@ -52,8 +52,24 @@ func genTreeShape(class int, seed uint64, bigFiles bool, wide bool) treeSpec {
 	t := treeSpec{}
 	dirs := []string{""}
 	depthOf := map[string]int{"": 0}
+	// a quarter of the trees consist mostly of (empty) directories, siblings of each other: long runs of directory
+	// entries in listings and archives
+	dirHeavy := seed%4 == 3 && class >= 1
 	for t.Entries() < target {
 		parent := dirs[rnd(len(dirs))]
+		if dirHeavy && rnd(6) != 0 {
+			name := fmt.Sprintf("e%d", len(t.Dirs))
+			p := strings.TrimPrefix(parent+"/"+name, "/")
+			t.Dirs = append(t.Dirs, p)
+			if depthOf[parent]+1 > t.Depth {
+				t.Depth = depthOf[parent] + 1
+			}
+			if len(dirs) < 3 {
+				dirs = append(dirs, p)
+				depthOf[p] = depthOf[parent] + 1
+			}
+			continue
+		}
 		if (!wide && rnd(4) == 0 || wide && len(t.Dirs) < 3 && rnd(8) == 0) && depthOf[parent] < 4 {
 			name := fmt.Sprintf("d%d", len(t.Dirs))
 			p := strings.TrimPrefix(parent+"/"+name, "/")
